@@ -257,7 +257,9 @@ fn subscribe_replay() {
                     if v == 0 {
                         tm2.remove_route(source.clone(), Family::IPV4, net, None, 0);
                     } else {
-                        tm2.insert_route(source.clone(), Family::IPV4, net, Some(bgp::Nexthop::V4(Ipv4Addr::new(192, 0, 2, peer_last))), sub_attrs(v), None, 0);
+                        // peer p2's routes carry no next hop (as Flowspec routes do)
+                        let nh = if peer_last == 2 { None } else { Some(bgp::Nexthop::V4(Ipv4Addr::new(192, 0, 2, peer_last))) };
+                        tm2.insert_route(source.clone(), Family::IPV4, net, nh, sub_attrs(v), None, 0);
                     }
                     sched_point("between calls");
                 }
